@@ -538,6 +538,7 @@ func cmdCheck(args []string) {
 		}
 		// --- violations: replay natively, then classify ---
 		seen := map[string]bool{}
+		perID := map[string]int{}
 		var vvecs [][][2]interface{}
 		type vref struct {
 			v interp.Violation
@@ -550,7 +551,8 @@ func cmdCheck(args []string) {
 					continue
 				}
 				seen[key] = true
-				if len(vvecs) >= 60 {
+				perID[v.AssertID]++
+				if perID[v.AssertID] > 12 || len(vvecs) >= 120 {
 					continue
 				}
 				vvecs = append(vvecs, v.Vector)
@@ -573,9 +575,9 @@ func cmdCheck(args []string) {
 				// known finding?
 				isKnown := false
 				for _, k := range known.Known {
-					if k.Property == *prop && k.Harness == name && (k.Assert == "" || k.Assert == o.Assert || k.Assert == v.AssertID) && k.Shape == shape && k.Input == input {
+					if k.Property == *prop && k.Harness == name && (k.Assert == "" || k.Assert == o.Assert || k.Assert == v.AssertID) && (k.Shape == "" || k.Shape == shape) && (k.Input == "" || k.Input == input) {
 						isKnown = true
-						line := fmt.Sprintf("KNOWN-FINDING: property=%s %s [%s shape=%s input=%q]", *prop, k.What, name, shape, input)
+						line := fmt.Sprintf("KNOWN-FINDING: property=%s %s [%s %s]", *prop, k.What, name, k.Assert)
 						if !contains(knownLines, line) {
 							knownLines = append(knownLines, line)
 						}
